@@ -351,6 +351,15 @@ package rollout
 //@ requires r != nil && rollout != nil && workload != nil && newStatus != nil
 //@ ensures cancels: result == nil && #progTrans == 1 && #progTrans.arg2 == v1alpha1.ProgressingReasonCancelling && #progTrans.arg0 == newStatus
 
+// C02: a rollback in batches re-runs the plan from its first step, and that step starts at Init - the batch for the
+// rolled-back revision is issued and awaited again before any traffic or pause state is entered.
+//@ define subOf(s) = ite(s.CanaryStatus != nil, &s.CanaryStatus.CommonStatus, &s.BlueGreenStatus.CommonStatus)
+//@ func (*RolloutReconciler).handleRollbackInBatches
+//@ props C02
+//@ requires r != nil && rollout != nil && workload != nil && newStatus != nil
+//@ requires rollout.Spec.Strategy.BlueGreen != nil || rollout.Spec.Strategy.Canary != nil
+//@ ensures restarts_at_step_one_in_init: old(newStatus.CanaryStatus != nil || newStatus.BlueGreenStatus != nil) ==> result == nil && subOf(newStatus).CurrentStepIndex == 1 && subOf(newStatus).CurrentStepState == S_Init() && subOf(newStatus).NextStepIndex == nextIdx(rollout, 1)
+
 //@ func (*RolloutReconciler).handleContinuousRelease
 //@ props C10
 //@ requires r != nil && r.trafficRoutingManager != nil && c != nil && c.Rollout != nil && c.Workload != nil && c.NewStatus != nil && (strat(c).BlueGreen != nil || strat(c).Canary != nil)
